@@ -25,7 +25,7 @@ from pyccolo.tracer import (
     register_raw_handler,
     skip_when_tracing_disabled,
 )
-from pyccolo.tracer import parse_function_source
+from pyccolo.tracer import future_flags_of, parse_function_source
 from pyccolo.utils import multi_context, resolve_tracer
 
 
@@ -177,7 +177,9 @@ def instrumented(tracers: List[BaseTracer]) -> Callable[[Callable[..., Any]], Ca
         with multi_context([tracer.tracing_disabled() for tracer in tracers]):
             code = parse_function_source(f)
             code.body[0] = tracers[-1].make_ast_rewriter(path=f.__code__.co_filename).visit(code.body[0])
-            compiled: types.CodeType = compile(code, f.__code__.co_filename, "exec")
+            compiled: types.CodeType = compile(
+                code, f.__code__.co_filename, "exec", flags=future_flags_of(f), dont_inherit=True
+            )
             for const in compiled.co_consts:
                 if (
                     isinstance(const, types.CodeType)
